@@ -158,6 +158,12 @@ func (g *genCtx) flags(p *Prop) {
 		}
 		if (p.T.K == "R" && p.T.Sub == "e") && h.Chance(1, 2) {
 			p.Flags += "f"
+			switch r := h.Rng.IntN(30); {
+			case r < 10:
+				p.Flags += "d" // default filter naming a declared option
+			case r < 13:
+				p.Flags += "D" // default filter naming no option: the compiler lets it through
+			}
 		}
 	}
 }
@@ -233,6 +239,19 @@ func genSpec(h *vh.H) *Spec {
 		}
 	}
 
+	// rarely: an inline field whose hoisted message name equals a declared schema's name, next to a
+	// reference to that schema (nested `Outer.Tag` shadows top-level `Tag` inside `Outer`)
+	if len(g.objects) >= 2 && h.Chance(1, 25) {
+		outer, target := s.object(g.objects[0]), s.object(g.objects[1])
+		lower := strings.ToLower(target.Name[:1]) + target.Name[1:]
+		if strcase.ToCamel(lower) == target.Name && !contains(propNames(outer.Props), lower) {
+			if n := uniqueFieldNames(h, 1, append(propNames(outer.Props), lower)...); len(n) == 1 {
+				outer.Props = append(outer.Props,
+					&Prop{Name: lower, T: &Type{K: "IO", Props: []*Prop{{Name: "nested", T: &Type{K: "str"}}}}},
+					&Prop{Name: n[0], T: &Type{K: "R", Sub: "o", Name: target.Name}})
+			}
+		}
+	}
 	if nSchemas > 1 && h.Chance(1, 4) {
 		s.Extra = 1 + h.Rng.IntN(nSchemas-1)
 	}
@@ -308,10 +327,28 @@ func genSpec(h *vh.H) *Spec {
 			for _, ev := range pickN(h, []string{"Create", "Archive", "Update", "Touch"}, 1+h.Rng.IntN(3)) {
 				en.Events = append(en.Events, &TopicMsg{Name: ev, Props: g.props(h.Rng.IntN(3), 1, false)})
 			}
+			// the bad-default class is kept to declared schemas (the walks over entity-generated
+			// list methods are not in the declaration-level expectation)
+			for _, ps := range [][]*Prop{en.Data} {
+				stripFlag(ps, 'D')
+			}
+			for _, ev := range en.Events {
+				stripFlag(ev.Props, 'D')
+			}
 			s.Entities = append(s.Entities, en)
 		}
 	}
 	return s
+}
+
+func stripFlag(ps []*Prop, c byte) {
+	for _, p := range ps {
+		p.Flags = strings.ReplaceAll(p.Flags, string(c), "")
+		stripFlag(p.T.Props, c)
+		if p.T.Elem != nil {
+			stripFlag(p.T.Elem.Props, c)
+		}
+	}
 }
 
 func rotate(xs []string, k int) []string {
